@@ -442,6 +442,8 @@ class C04(Prop):
     while made < n:
       if rng.chance(0.07):
         child, base = tv.frozen_pair(g)        # frozen x frozen pairs (mostly over an Enum base)
+      elif rng.chance(0.04):
+        child, base = tv.tuple_pair(g)         # fixed tuple over variable tuple at the size bounds
       else:
         base = g.spec(rng.weighted([(2, 0), (5, 1), (3, 2)]))
         child = g.mutate(base)
